@@ -7,7 +7,10 @@ src["checks"] = {}
 for a in sorted(os.listdir(os.path.join(R, "harness"))):
     fp = os.path.join(R, "harness", a, "area.json")
     if os.path.exists(fp):
-        for pid, c in json.load(open(fp)).get("checks", {}).items():
+        frag = json.load(open(fp))
+        if not frag.get("enabled"):
+            continue  # registered by the lead only after the check was reviewed and is silent on the unchanged tree
+        for pid, c in frag.get("checks", {}).items():
             m = dict(c["manifest"]); m["area"] = a
             src["checks"][pid] = m
 props = [json.loads(l)["id"] for l in open(os.path.join(R, "properties.jsonl")) if l.strip()]
